@@ -117,10 +117,18 @@ def run(rep):
     from harness.props import _typecell
 
     _typecell.part(rep, PROP)
+    # the line machines of the two text containers (TextTables.tla), this property's clauses
+    from harness.props import _texttables
+
+    _texttables.run(rep, PROP)
 
 
 def replay(rep, case):
     c = case["case"]
+    if c.get("texttable"):
+        from harness.props import _texttables
+
+        return _texttables.replay(rep, PROP, c)
     if c.get("headers"):
         from harness.props import _headers
 
